@@ -1167,7 +1167,7 @@ def run(ctx, rep, cases=None, use_driver=True):
             for L in case["layers"]:
                 rep.count("lib:linear-" + L["kind"])
             import json as _json
-            txt = _json.dumps(case["out"])
+            txt = _json.dumps([case["out"], case["layers"]])
             for tag in ("relun", "sinus", "adapt", "tanh"):
                 if '"%s' % tag in txt:
                     rep.count("lib:" + tag)
